@@ -13,6 +13,11 @@ CHECKS = {
                   "{absent,present} target in a scratch directory.",
              note="Real file system and the readers' diagnostics production are exercised, not modelled; cross-level equality of hierarchy is an implementation-side oracle.",
              technique="Lean 4 theorems about the gate model + differential correspondence + cross-level oracle", ref="DESIGN §7 C07"),
+ 'C12': dict(text="Theorems (generic in term type and matchers, any expression depth, any structure): simplify preserves the Kleene value, add-info = evaluation with merged valuation, "
+                  "complete = Kleene value, pruning on Known(false) is sound, and at each of the five entry points the pruned find equals the unpruned three-valued filter over atoms-with-hierarchy in traversal order. "
+                  "Tie: exhaustive expression trees over a 12-term alphabet (depth 1 quick, 2 thorough) plus random trees to depth 8, at all five entry points, find and find_mut; oracle = independent Kleene evaluator in Rust.",
+             note="B-factor/occupancy terms are compared on two-decimal values (the code compares with f64::EPSILON); reference tables AMINO_ACIDS/BACKBONE_NAMES are regenerated from the source.",
+             technique="Lean 4 structural induction over expression trees and hierarchy lists + differential correspondence", ref="DESIGN §7 C12"),
 }
 NOT_APPLICABLE = {}
 ALL = ['C%02d' % i for i in range(1, 19)]
